@@ -149,25 +149,51 @@ Proof.
     repeat match goal with |- context [if ?b then _ else _] => destruct b eqn:? end; try reflexivity; try discriminate.
 Qed.
 
-(* ================= C09: match mode decides conformance (pure fragment: literals, types, lists, tuples) ================= *)
+(* ================= C09: match mode decides conformance (literals, types, lists, tuples, dicts) ================= *)
+(* key patterns of a dict pattern: an == constant (required), a type (not required), Required(type), Optional(constant) with an
+   optional literal default *)
+Inductive kpat := KLit (v : val) | KType (ty : pytype) | KReqType (ty : pytype) | KOpt (v : val) (d : option val).
+
 Inductive pat :=
 | PLit (v : val)
 | PType (ty : pytype)
 | PList (alts : list pat)
-| PTuple (ps : list pat).
+| PTuple (ps : list pat)
+| PDict (es : list (kpat * pat)).
+
+Definition kspec (k : kpat) : spec :=
+  match k with
+  | KLit v => SLit v | KType ty => SType ty | KReqType ty => SRequired (SType ty)
+  | KOpt v d => SOptional v (option_map SLit d) end.
+Definition kmatch (k : kpat) (key : val) : bool :=
+  match k with KLit v | KOpt v _ => py_eqb key v | KType ty | KReqType ty => isinstance key ty end.
+Definition krequired (k : kpat) : bool := match k with KLit _ | KReqType _ => true | _ => false end.
 
 Fixpoint to_spec (p : pat) : spec :=
   match p with
   | PLit v => SLit v
   | PType ty => SType ty
   | PList alts => SList (map to_spec alts)
-  | PTuple ps => STuple (map to_spec ps) end.
+  | PTuple ps => STuple (map to_spec ps)
+  | PDict es => SDict false (map (fun kp => (kspec (fst kp), to_spec (snd kp))) es) end.
 
 Fixpoint pdepth (p : pat) : nat :=
   match p with
   | PLit _ | PType _ => 0
   | PList alts => S (fold_right (fun a acc => Nat.max (pdepth a) acc) 0 alts)
-  | PTuple ps => S (fold_right (fun a acc => Nat.max (pdepth a) acc) 0 ps) end.
+  | PTuple ps => S (fold_right (fun a acc => Nat.max (pdepth a) acc) 0 ps)
+  | PDict es => S (fold_right (fun kp acc => Nat.max (pdepth (snd kp)) acc) 0 es) end.
+
+(* Optional(key, default=d) entries whose key is absent from the result contribute key -> d *)
+Fixpoint kdefaults (es : list (kpat * pat)) (res : list (val * val)) : list (val * val) :=
+  match es with
+  | [] => res
+  | (KOpt k (Some d), _) :: r =>
+      match kv_lookup py_eqb k res with Some _ => kdefaults r res | None => kdefaults r (kv_set k d res) end
+  | _ :: r => kdefaults r res end.
+(* a required spec key that no target key was matched by *)
+Definition kmissing (es : list (kpat * pat)) (hit : list nat) : bool :=
+  existsb (fun ik => krequired (fst (snd ik)) && negb (existsb (Nat.eqb (fst ik)) hit)) (combine (seq 0 (length es)) es).
 
 (* the documented rules, as a structural recursion on the pattern: Some r = conforms, r the value Match returns *)
 Fixpoint mres (p : pat) (v : val) : option val :=
@@ -198,7 +224,48 @@ Fixpoint mres (p : pat) (v : val) : option val :=
                 | a :: ar, x :: r => match mres a x with Some y => option_map (cons y) (go ar r) | None => None end
                 | _, _ => None end) ps items)
       | _ => None end
+  | PDict es =>
+      (* every target key, in the target's order, against the FIRST spec key that accepts it; its value against that entry's
+         value pattern (no fall-through to later spec keys); then Optional defaults; every required spec key must have
+         accepted some target key *)
+      match v with
+      | VDict _ _ items =>
+          match (fix items_go (its : list (val * val)) (res : list (val * val)) (hit : list nat) : option (list (val * val) * list nat) :=
+                   match its with
+                   | [] => Some (res, hit)
+                   | (k, x) :: r =>
+                       match (fix keys_go (l : list (kpat * pat)) (i : nat) : option (option (nat * val)) :=
+                                match l with
+                                | [] => Some None
+                                | (kp, vp) :: lr =>
+                                    if kmatch kp k then match mres vp x with Some y => Some (Some (i, y)) | None => None end
+                                    else keys_go lr (S i) end) es 0 with
+                       | Some (Some (i, y)) => items_go r (kv_set k y res) (i :: hit)
+                       | Some None => None          (* no spec key accepts this target key *)
+                       | None => None end           (* the value does not conform *)
+                   end) items [] [] with
+          | Some (res, hit) => if kmissing es hit then None else Some (VDict 0 false (kdefaults es res))
+          | None => None end
+      | _ => None end
   end.
+
+Definition keys_res (es : list (kpat * pat)) (k x : val) : nat -> option (option (nat * val)) :=
+  (fix keys_go (l : list (kpat * pat)) (i : nat) : option (option (nat * val)) :=
+     match l with
+     | [] => Some None
+     | (kp, vp) :: lr =>
+         if kmatch kp k then match mres vp x with Some y => Some (Some (i, y)) | None => None end
+         else keys_go lr (S i) end) es.
+Definition ditems_res (es : list (kpat * pat)) : list (val * val) -> list (val * val) -> list nat -> option (list (val * val) * list nat) :=
+  fix items_go (its : list (val * val)) (res : list (val * val)) (hit : list nat) : option (list (val * val) * list nat) :=
+    match its with
+    | [] => Some (res, hit)
+    | (k, x) :: r =>
+        match keys_res es k x 0 with
+        | Some (Some (i, y)) => items_go r (kv_set k y res) (i :: hit)
+        | Some None => None
+        | None => None end
+    end.
 
 Definition first_alt (alts : list pat) (x : val) : option val :=
   (fix alts_go (l : list pat) : option val :=
@@ -281,25 +348,134 @@ End Decide.
 (* induction principle for patterns *)
 Fixpoint pat_ind' (P : pat -> Prop)
   (HL : forall v, P (PLit v)) (HT : forall ty, P (PType ty))
-  (HLi : forall alts, Forall P alts -> P (PList alts)) (HTu : forall ps, Forall P ps -> P (PTuple ps)) (p : pat) : P p :=
+  (HLi : forall alts, Forall P alts -> P (PList alts)) (HTu : forall ps, Forall P ps -> P (PTuple ps))
+  (HD : forall es, Forall P (map snd es) -> P (PDict es)) (p : pat) : P p :=
   let go := fix go (l : list pat) : Forall P l :=
-      match l with [] => Forall_nil _ | k :: r => Forall_cons _ (pat_ind' P HL HT HLi HTu k) (go r) end in
+      match l with [] => Forall_nil _ | k :: r => Forall_cons _ (pat_ind' P HL HT HLi HTu HD k) (go r) end in
   match p with
   | PLit v => HL v | PType ty => HT ty
   | PList alts => HLi alts (go alts)
-  | PTuple ps => HTu ps (go ps) end.
+  | PTuple ps => HTu ps (go ps)
+  | PDict es => HD es ((fix god (l : list (kpat * pat)) : Forall P (map snd l) :=
+                          match l with [] => Forall_nil _ | kp :: r => Forall_cons _ (pat_ind' P HL HT HLi HTu HD (snd kp)) (god r) end) es) end.
 
 Lemma fold_max_le (l : list pat) a : In a l -> pdepth a <= fold_right (fun a acc => Nat.max (pdepth a) acc) 0 l.
 Proof. induction l as [|b r IH]; intros []; cbn [fold_right]; [subst; lia|specialize (IH H); lia]. Qed.
+
+Lemma fold_max_le_snd (l : list (kpat * pat)) kp : In kp l -> pdepth (snd kp) <= fold_right (fun kp acc => Nat.max (pdepth (snd kp)) acc) 0 l.
+Proof. induction l as [|b r IH]; intros []; cbn [fold_right]; [subst; lia|specialize (IH H); lia]. Qed.
+
+(* all dict keys occurring in a value are hashable (true of every Python dict) *)
+Fixpoint keys_hashable (v : val) : bool :=
+  match v with
+  | VList _ xs | VTuple _ xs => (fix go (l : list val) := match l with [] => true | x :: r => keys_hashable x && go r end) xs
+  | VDict _ _ kvs => (fix go (l : list (val * val)) := match l with [] => true | (k, x) :: r => hashable k && keys_hashable x && go r end) kvs
+  | _ => true end.
+Definition list_kh (l : list val) : bool := (fix go (l : list val) := match l with [] => true | x :: r => keys_hashable x && go r end) l.
+Definition kvs_kh (l : list (val * val)) : bool :=
+  (fix go (l : list (val * val)) := match l with [] => true | (k, x) :: r => hashable k && keys_hashable x && go r end) l.
+Lemma list_kh_in l x : list_kh l = true -> In x l -> keys_hashable x = true.
+Proof.
+  induction l as [|y r IH]; intros H []; cbn in H; apply andb_prop in H; destruct H as [H1 H2]; [subst; exact H1|apply IH; assumption].
+Qed.
+
+(* ---------- dict patterns ---------- *)
+Section DictDecide.
+Variable fixed : bool.
+Variable fuel : nat.
+Let rec := glom_ fixed (S fuel).
+Variable own : frame.
+Variable sc : scope.
+Hypothesis Hown_mode : fmode own = MATCH.
+Hypothesis Hown_arg : farg own = false.
+
+(* one spec key against one target key: accepted (the key itself, in a match-mode non-argument frame) or rejected with a MatchError *)
+Lemma key_decides kp key st :
+  if kmatch kp key
+  then exists child, rec (own :: sc) key (spec_key (kspec kp)) st = (Ok (key, child), st) /\ fmode child = MATCH /\ farg child = false
+  else exists e, rec (own :: sc) key (spec_key (kspec kp)) st = (Raise e, st) /\ is_match_error e.
+Proof.
+  unfold rec. cbn [glom_]. unfold glom_body. cbn [head_mode head_arg]. rewrite Hown_mode, Hown_arg.
+  destruct kp as [v|ty|ty|v d]; cbn [kspec spec_key kmatch]; cbv zeta; cbn [farg fmode set_arg].
+  - destruct (py_eqb key v); [eexists; repeat split; reflexivity|eexists; split; [reflexivity|left; reflexivity]].
+  - destruct (isinstance key ty); [eexists; repeat split; reflexivity|eexists; split; [reflexivity|right; reflexivity]].
+  - destruct (isinstance key ty); [eexists; repeat split; reflexivity|eexists; split; [reflexivity|right; reflexivity]].
+  - destruct (py_eqb key v); [eexists; repeat split; reflexivity|eexists; split; [reflexivity|left; reflexivity]].
+Qed.
+
+Definition conv (kp : kpat * pat) : spec * spec := (kspec (fst kp), to_spec (snd kp)).
+
+(* the scope the value spec runs in: chained after the key *)
+Definition chained (child : frame) : scope :=
+  if fixed then set_head_mode (fmode own) (child :: own :: sc) else child :: own :: sc.
+Lemma chained_match child : fmode child = MATCH -> farg child = false -> head_mode (chained child) = MATCH /\ head_arg (chained child) = false.
+Proof. intros H1 H2. unfold chained. destruct fixed; cbn; rewrite ?Hown_mode; auto. Qed.
+
+Variable es0 : list (kpat * pat).
+(* induction hypothesis of the main theorem: every value pattern decides, in every match-mode scope *)
+Hypothesis value_decides : forall vp, In vp (map snd es0) -> forall sc' x st,
+  keys_hashable x = true -> head_mode sc' = MATCH -> head_arg sc' = false -> decides (rec sc' x (to_spec vp)) st (mres vp x).
+
+Lemma key_loop_decides k x st : keys_hashable x = true -> forall l i, incl (map snd l) (map snd es0) ->
+  match keys_res l k x i with
+  | Some (Some (j, y)) => match_key_loop fixed rec own sc k x (map conv l) i st = (Ok (Some (j, k, y)), st)
+  | Some None => match_key_loop fixed rec own sc k x (map conv l) i st = (Ok None, st)
+  | None => exists e, match_key_loop fixed rec own sc k x (map conv l) i st = (Raise e, st) /\ is_match_error e end.
+Proof.
+  intros Hx. induction l as [|[kp vp] r IH]; intros i Hin; cbn [map match_key_loop keys_res conv fst snd]; [reflexivity|].
+  fold (keys_res r k x). pose proof (key_decides kp k st) as K. destruct (kmatch kp k).
+  - destruct K as [child [Hk [Hm Ha]]]. rewrite Hk. destruct (chained_match child Hm Ha) as [C1 C2].
+    pose proof (value_decides vp (Hin vp (or_introl eq_refl)) (chained child) x st Hx C1 C2) as D.
+    unfold decides in D. unfold chained in D. unfold bindM.
+    destruct (mres vp x) as [y|].
+    + destruct D as [f Hf]. rewrite Hf. reflexivity.
+    + destruct D as [e [He Hme]]. rewrite He. exists e. auto.
+  - destruct K as [e [He Hme]]. rewrite He, (match_error_is_glom e Hme). apply IH.
+    intros a Ha. apply Hin. right. exact Ha.
+Qed.
+
+Lemma dict_items_decides st : forall items res hit, kvs_kh items = true ->
+  match ditems_res es0 items res hit with
+  | Some (res', hit') => match_dict_items fixed rec own sc items (map conv es0) res hit st = (Ok (res', hit'), st)
+  | None => exists e, match_dict_items fixed rec own sc items (map conv es0) res hit st = (Raise e, st) /\ is_match_error e end.
+Proof.
+  induction items as [|[k x] r IH]; intros res hit Hk; cbn [match_dict_items ditems_res]; [reflexivity|].
+  fold (ditems_res es0). cbn [kvs_kh] in Hk. fold (kvs_kh r) in Hk.
+  apply andb_prop in Hk. destruct Hk as [Hk Hr]. apply andb_prop in Hk. destruct Hk as [Hhk Hx].
+  pose proof (key_loop_decides k x st Hx es0 0 (incl_refl _)) as K. unfold bindM.
+  destruct (keys_res es0 k x 0) as [[[j y]|]|].
+  - rewrite K. rewrite Hhk. apply IH. exact Hr.
+  - rewrite K. eexists. split; [reflexivity|left; reflexivity].
+  - destruct K as [e [He Hme]]. rewrite He. exists e. auto.
+Qed.
+
+Lemma defaults_decides t st : forall l res,
+  optional_defaults rec own sc t (map conv l) res st = (Ok (kdefaults l res), st).
+Proof.
+  induction l as [|[kp vp] r IH]; intros res; cbn [map optional_defaults kdefaults conv fst snd]; [reflexivity|].
+  destruct kp as [v|ty|ty|v [d|]]; cbn [kspec option_map]; try apply IH.
+  destruct (kv_lookup py_eqb v res); [apply IH|].
+  unfold bindM, arg_val_i, rec. cbn [glom_]. unfold glom_body. cbn [head_mode head_arg set_arg farg]. cbv zeta. cbn [farg].
+  unfold bindM, ret. apply IH.
+Qed.
+
+Lemma missing_agrees hit : forall l n,
+  existsb (fun ik => is_required (fst (snd ik)) && negb (existsb (Nat.eqb (fst ik)) hit)) (combine (seq n (length (map conv l))) (map conv l))
+  = existsb (fun ik => krequired (fst (snd ik)) && negb (existsb (Nat.eqb (fst ik)) hit)) (combine (seq n (length l)) l).
+Proof.
+  induction l as [|[kp vp] r IH]; intros n; cbn [map length seq combine existsb conv fst snd]; [reflexivity|].
+  rewrite IH. f_equal. destruct kp; reflexivity.
+Qed.
+End DictDecide.
 
 (* Match mode decides conformance: for every pattern of the fragment, every target, every scope in match mode and any
    sufficient fuel, the evaluation leaves the state untouched and returns the conforming value, or raises a
    MatchError / TypeMatchError *)
 Theorem match_decides_lemma fixed : forall p fuel sc v st,
-  pdepth p < fuel -> head_mode sc = MATCH -> head_arg sc = false ->
+  pdepth p < fuel -> keys_hashable v = true -> head_mode sc = MATCH -> head_arg sc = false ->
   decides (glom_ fixed fuel sc v (to_spec p)) st (mres p v).
 Proof.
-  induction p as [c|ty|alts IH|ps IH] using pat_ind'; intros fuel sc v st Hf Hm Ha;
+  induction p as [c|ty|alts IH|ps IH|es IH] using pat_ind'; intros fuel sc v st Hf Hkh Hm Ha;
     (destruct fuel as [|fuel]; [lia|]); cbn [glom_ to_spec]; unfold glom_body; rewrite Hm, Ha; cbv zeta; cbn [farg fmode].
   - cbn [mres]. destruct (py_eqb v c); [eexists; reflexivity|eexists; split; [reflexivity|left; reflexivity]].
   - cbn [mres]. destruct (isinstance v ty); [eexists; reflexivity|eexists; split; [reflexivity|right; reflexivity]].
@@ -307,8 +483,9 @@ Proof.
     change (mres (PList alts) (VList id xs)) with (option_map (VList 0) (items_res alts xs)). set (own := mkFrame [] MATCH false []).
     pose proof (match_items_decides (glom_ fixed fuel) (own :: sc) alts xs st) as D.
     assert (HD : forall x, In x xs -> Forall (fun a => decides (glom_ fixed fuel (own :: sc) x (to_spec a)) st (mres a x)) alts).
-    { intros x _. rewrite Forall_forall in *. intros a Hin. apply IH; [exact Hin| |reflexivity|reflexivity].
-      cbn [pdepth] in Hf. pose proof (fold_max_le alts a Hin). lia. }
+    { intros x Hx. rewrite Forall_forall in *. intros a Hin. apply IH; [exact Hin| | |reflexivity|reflexivity].
+      - cbn [pdepth] in Hf. pose proof (fold_max_le alts a Hin). lia.
+      - exact (list_kh_in xs x Hkh Hx). }
     specialize (D HD). unfold decides, bindM. destruct (items_res alts xs) as [ys|]; cbn [option_map]; cbv beta iota.
     + rewrite D. eexists. reflexivity.
     + destruct D as [e [He Hme]]. rewrite He. exists e. auto.
@@ -317,8 +494,10 @@ Proof.
     destruct (Nat.eqb_spec (length xs) (length (map to_spec ps))) as [El|El].
     + pose proof (match_tuple_decides (glom_ fixed fuel) (own :: sc) ps xs st) as D.
       assert (HD : forall a x, In (a, x) (combine ps xs) -> decides (glom_ fixed fuel (own :: sc) x (to_spec a)) st (mres a x)).
-      { intros a x Hin. apply in_combine_l in Hin. rewrite Forall_forall in IH. apply IH; [exact Hin| |reflexivity|reflexivity].
-        cbn [pdepth] in Hf. pose proof (fold_max_le ps a Hin). lia. }
+      { intros a x Hin. pose proof (in_combine_r _ _ _ _ Hin) as Hx. apply in_combine_l in Hin. rewrite Forall_forall in IH.
+        apply IH; [exact Hin| | |reflexivity|reflexivity].
+        - cbn [pdepth] in Hf. pose proof (fold_max_le ps a Hin). lia.
+        - exact (list_kh_in xs x Hkh Hx). }
       specialize (D HD). unfold decides, bindM. destruct (tuple_res ps xs) as [ys|]; cbn [option_map]; cbv beta iota.
       * rewrite D. eexists. reflexivity.
       * destruct D as [e [He Hme]]. rewrite He. exists e. auto.
@@ -327,6 +506,27 @@ Proof.
       { rewrite map_length in El. clear -El. revert xs El. induction ps as [|a ar IHp]; intros [|x r] El; cbn [tuple_res length] in *; try reflexivity; try lia.
         fold (tuple_res ar r). destruct (mres a x); [|reflexivity]. rewrite IHp by lia. reflexivity. }
       rewrite N. cbn [option_map]. unfold decides. cbv beta iota. eexists; split; [reflexivity|left; reflexivity].
+  - (* dict patterns *)
+    destruct v; try (cbn [mres]; eexists; split; [reflexivity|right; reflexivity]).
+    change (mres (PDict es) (VDict id od kvs)) with
+      (match ditems_res es kvs [] [] with
+       | Some (res, hit) => if kmissing es hit then None else Some (VDict 0 false (kdefaults es res))
+       | None => None end).
+    set (own := mkFrame [] MATCH false []).
+    destruct fuel as [|fuel]; [cbn [pdepth] in Hf; lia|].
+    change (map (fun kp : kpat * pat => (kspec (fst kp), to_spec (snd kp))) es) with (map conv es).
+    assert (HV : forall vp, In vp (map snd es) -> forall sc' x st',
+               keys_hashable x = true -> head_mode sc' = MATCH -> head_arg sc' = false ->
+               decides (glom_ fixed (S fuel) sc' x (to_spec vp)) st' (mres vp x)).
+    { intros vp Hin sc' x st' Hx Hm' Ha'. rewrite Forall_forall in IH. apply IH; try assumption.
+      apply in_map_iff in Hin. destruct Hin as [kp [<- Hkp]]. cbn [pdepth] in Hf. pose proof (fold_max_le_snd es kp Hkp). lia. }
+    pose proof (dict_items_decides fixed fuel own sc eq_refl eq_refl es HV st kvs [] [] Hkh) as D.
+    unfold decides, bindM.
+    destruct (ditems_res es kvs [] []) as [[res hit]|].
+    + rewrite D. rewrite (defaults_decides fixed fuel own sc (VDict id od kvs) st es res).
+      rewrite (missing_agrees hit es 0). fold (kmissing es hit).
+      destruct (kmissing es hit); [eexists; split; [reflexivity|left; reflexivity]|eexists; reflexivity].
+    + destruct D as [e [He Hme]]. rewrite He. exists e. auto.
 Qed.
 
 
